@@ -320,6 +320,66 @@ def check_empty_composites(ctx: Ctx) -> None:
             ctx.count(key=json.dumps(sig, sort_keys=True))
 
 
+def check_coarse_fields(ctx: Ctx) -> None:
+    """Dense fields whose parameters live on a coarser grid (stride > 1), with and without resizing of the buffered field: the displacement field
+    on the transform's own grid, the point map at the grid points (plain call and the grid=True call form) and composites with a linear member
+    in front all describe the same mapping - for either align_corners convention."""
+    import torch
+
+    import deepali.spatial as S
+    from deepali.core.grid import Grid
+
+    for D in (2, 3):
+        for ac in (True, False):
+            g = Grid(size=(12, 10, 8)[:D], spacing=(1.0, 1.5, 0.5)[:D], align_corners=ac)
+            xg = g.coords(align_corners=ac).unsqueeze(0)
+            lim = 1.0 - 3.0 / min(g.size())
+            inner = (xg.abs() <= lim).all(dim=-1)
+            for cls in (S.DisplacementFieldTransform, S.StationaryVelocityFieldTransform):
+                for resize in (True, False):
+                    sig = dict(view="coarse field", model=cls.__name__, D=D, ac=ac, resize=resize)
+                    case = dict(scenario="coarse", **sig)
+                    try:
+                        t = cls(g, stride=2, resize=resize, params=False)
+                        gen = torch.Generator().manual_seed(5 + D)
+                        p = torch.zeros((1,) + tuple(t.data_shape))
+                        # smooth small field: a*sin over the coarse lattice
+                        shp = t.data_shape[1:]
+                        axes_ = [torch.linspace(-1, 1, n_) for n_ in shp]
+                        mesh = torch.meshgrid(*axes_, indexing="ij")
+                        for i_ in range(D):
+                            p[0, i_] = 0.04 * torch.sin(1.3 * mesh[i_ % D] + 0.7 * i_) * torch.cos(0.9 * mesh[(i_ + 1) % D])
+                        t.data_(p)
+                        y = t(xg)                       # point map at the grid points
+                        u = t.disp()                    # dense field on the own grid
+                        ud = u.movedim(1, -1)
+                        if tuple(ud.shape) != tuple(xg.shape):
+                            ctx.violation(dict(**sig, what="shape"), f"{cls.__name__}(stride=2, resize={resize}).disp() has shape {tuple(u.shape)} on a grid of shape {tuple(g.shape)}", case)
+                            continue
+                        err = float(((y - xg) - ud)[inner].abs().max())
+                        if err > 1e-5:
+                            ctx.violation(dict(**sig, what="disp vs points"), f"{cls.__name__}(stride=2, resize={resize}, align_corners={ac}) D={D}: disp() differs from the displacement of the grid points by {err:.3g}", case)
+                        yg = t(xg, grid=True)
+                        err = float((yg - y)[inner].abs().max())
+                        if err > 1e-5:
+                            ctx.violation(dict(**sig, what="grid=True"), f"{cls.__name__}(stride=2, resize={resize}, align_corners={ac}) D={D}: call(grid=True) differs from the plain call at the grid points by {err:.3g}", case)
+                        # composites: a linear member in front of / behind the field, called at the grid points with grid=True
+                        for order in ("linear first", "field first"):
+                            lin = S.Translation(g, params=False)
+                            lin.data_(torch.tensor([[0.07, -0.05, 0.03][:D]]))
+                            seq = S.SequentialTransform(lin, t) if order == "linear first" else S.SequentialTransform(t, lin)
+                            a_ = seq(xg)
+                            b_ = seq(xg, grid=True)
+                            lim2 = lim - 0.1
+                            inner2 = (xg.abs() <= lim2).all(dim=-1)
+                            err = float((a_ - b_)[inner2].abs().max())
+                            if err > 1e-5:
+                                ctx.violation(dict(**sig, what="composite grid=True", order=order), f"Sequential({order}) of a Translation and a {cls.__name__}: call(grid=True) differs from the plain call at the grid points by {err:.3g}", case)
+                    except Exception as ex:
+                        ctx.violation(dict(**sig, exc=type(ex).__name__), f"{cls.__name__}(stride=2, resize={resize}) raised {type(ex).__name__}: {str(ex)[:120]}", case)
+                    ctx.count(key=json.dumps(sig, sort_keys=True), nontrivial=True)
+
+
 def check_multilevel(ctx: Ctx, cases: List[dict]) -> None:
     """A multi-level composite adds the displacements of its members."""
     from deepali.spatial import MultiLevelTransform
@@ -378,6 +438,7 @@ def run(ctx: Ctx) -> None:
             check_case(ctx, c, k + ctx.seed + 1)
     check_multilevel(ctx, cases)
     check_empty_composites(ctx)
+    check_coarse_fields(ctx)
     ctx.traces = len(cases)
     ctx.sample({k: cases[0][k] for k in ("name", "parts", "g", "M", "W")})
     ctx.sample({k: cases[-1][k] for k in ("name", "parts", "g", "M", "W")})
